@@ -6,6 +6,9 @@ import (
 )
 
 var prevConvIn = map[string]cty.Value{}
+var dynConvs = map[string]convert.Conversion{}
+var lastOther = map[string]cty.Value{}
+var lastAny = map[string]cty.Value{}
 
 func init() { register("conv", driveConv) }
 
@@ -84,6 +87,33 @@ func driveConv(c *Ctx) error {
 					}
 				})
 				prevConvIn[tk] = in
+				// the conversion for a dynamically typed source position, obtained once per target and fed this value, then a value of
+				// another type, then this value again
+				tkey := jsonKey(ProjectType(t))
+				cvd, have := dynConvs[tkey]
+				if !have {
+					guard(func() { cvd = convert.GetConversionUnsafe(cty.DynamicPseudoType, t) })
+					dynConvs[tkey] = cvd
+				}
+				if cvd != nil {
+					apply := func(v cty.Value) J {
+						var out cty.Value
+						var err error
+						p, msg := guard(func() { out, err = cvd(v) })
+						return resOf(out, err, p, msg)
+					}
+					ev["r4"] = apply(in)
+					if other, ok := lastOther[tkey]; ok && !other.Type().Equals(in.Type()) {
+						apply(other)
+						ev["r5"] = apply(in)
+					}
+				}
+				if o, ok := lastOther[tkey]; !ok || !o.Type().Equals(in.Type()) || true {
+					if prevAny, ok2 := lastAny[tkey]; ok2 && !prevAny.Type().Equals(in.Type()) {
+						lastOther[tkey] = prevAny
+					}
+				}
+				lastAny[tkey] = in
 				ev["safe"] = offered(in, t, false)
 				ev["unsafe"] = offered(in, t, true)
 				cl := []any{}
